@@ -82,9 +82,10 @@ CONSTANTS Families,      \* subset of {"hist", "merge", "sds", "sym", "file"}
 \*   SymbolValueCached   a shared instruction object remembers a symbol dependent value    OwnSymbols
 \*   LineNumsRangeCached the same, for the range of `filter -line-nums` only (a finding)    OwnSymbols
 \*   PreprocessorArgsAccumulate  the preprocessor of a suite keeps the arguments of earlier cases  ThreeWaysAgree
+\*   ValidatedValueCached  a shared instruction object remembers that its value was well-formed   OwnSymbols
 DeviationNames == {"EnvNotCopied", "ConfShared", "CwdNotRestored", "SuiteContentsAfter", "Inherited",
                    "OptionIgnored", "BesideIgnored", "SandboxValueCached", "SymbolValueCached",
-                   "LineNumsRangeCached", "PreprocessorArgsAccumulate"}
+                   "LineNumsRangeCached", "PreprocessorArgsAccumulate", "ValidatedValueCached"}
 ASSUME Deviations \subseteq DeviationNames
 Dev(d) == d \in Deviations
 
@@ -247,8 +248,12 @@ AllSymLog == {"strArg", "listArg", "shellStr", "envStr", "fileStr", "progSym", "
 AllSymAssert == {"exitCode", "numLines", "lineNum", "lineNums", "equalsStr", "matchesRx", "pathExists", "textMatcher",
                  "textTransformer", "intMatcher", "lineMatcher"}
 AllSymKinds == {SymOrder[j] : j \in DOMAIN SymOrder}
-ASSUME SymKinds \subseteq AllSymKinds /\ SymVals \subseteq {"v1", "v2", "v3"}
-OwnFile(v) == CASE v = "v1" -> "own1.txt" [] v = "v2" -> "own2.txt" [] OTHER -> "own3.txt"
+\* "vbad": values of which the INTEGER and the REGEX are ill-formed (the others are values like any other): a case
+\* that gives them to an instruction of the suite that needs an INTEGER / a REGEX ends in VALIDATION_ERROR before
+\* anything is executed - whatever the cases before it gave to the same instruction
+ASSUME SymKinds \subseteq AllSymKinds /\ SymVals \subseteq {"v1", "v2", "v3", "vbad"}
+InvalidFor == {"exitCode", "numLines", "lineNum", "lineNums", "timeoutInt", "matchesRx"}
+OwnFile(v) == CASE v = "v1" -> "own1.txt" [] v = "v2" -> "own2.txt" [] v = "v3" -> "own3.txt" [] OTHER -> "own4.txt"
 SymDoc(ks) ==
     LET pick(S) == SelectSeq(SymOrder, LAMBDA k : k \in S \cap ks)
         logs(S) == [j \in DOMAIN pick(S) |-> I("symLog", pick(S)[j], "", NoVal)]
@@ -398,6 +403,10 @@ SymsOK(q, defined) ==
            [] Head(q).op \in {"symLog", "symAssert", "symTimeout"} -> "V" \in defined /\ SymsOK(Tail(q), defined)
            [] OTHER              -> SymsOK(Tail(q), defined)
 Defined(syms) == {n \in SymNames : syms[n] # NoVal}
+\* values are validated before anything executes: the values the case ITSELF defines
+OwnVal(q) == IF \E j \in DOMAIN q : q[j].op = "defOwn" THEN q[CHOOSE j \in DOMAIN q : q[j].op = "defOwn"].c ELSE NoVal
+NeedsWellFormed(q) == \E j \in DOMAIN q : q[j].op \in {"symLog", "symAssert", "symTimeout"} /\ q[j].a \in InvalidFor
+ValuesOK(q) == ~(OwnVal(q) = <<"vbad">> /\ NeedsWellFormed(q))
 Ident(status, out) == CASE out = "hard" -> "HARD_ERROR"
                         [] out = "fail" -> (IF status = "FAIL" THEN "XFAIL" ELSE "FAIL")
                         [] OTHER        -> (IF status = "FAIL" THEN "XPASS" ELSE "PASS")
@@ -423,6 +432,7 @@ Alone(doc, c, pp) ==
        ELSE IF cf.status = "SKIP" THEN [id |-> "SKIPPED", log |-> <<>>]
        ELSE IF ~ActSyntaxOK(doc, cf.actor) THEN [id |-> "SYNTAX_ERROR", log |-> <<>>]
        ELSE IF ~SymsOK(Instrs(doc), Defined(P0.syms)) THEN [id |-> "VALIDATION_ERROR", log |-> <<>>]
+       ELSE IF ~ValuesOK(Instrs(doc)) THEN [id |-> "VALIDATION_ERROR", log |-> <<>>]
        ELSE LET t0 == [L |-> Fresh(P0, c), out |-> "ok", log |-> <<>>]
                 t1 == RunInstrs(doc["setup"], t0, c, "setup", pp)
                 t2 == RunAct(ActLines(doc, cf.actor), t1, c, pp)
@@ -524,7 +534,11 @@ ParseAct ==
 \* the predefined symbols the validation starts from are those of the process
 ValidateSymbols ==
     /\ pc = "validate"
-    /\ IF SymsOK(Instrs(cur.doc), Defined(P.syms)) THEN pc' = "sandbox" /\ UNCHANGED idents
+    /\ IF /\ SymsOK(Instrs(cur.doc), Defined(P.syms))
+          /\ \/ ValuesOK(Instrs(cur.doc))
+             \* deviation: the shared instruction object remembers that its value was well-formed in an earlier case
+             \/ Dev("ValidatedValueCached") /\ \E j \in DOMAIN idents : idents[j][2] # "VALIDATION_ERROR"
+       THEN pc' = "sandbox" /\ UNCHANGED idents
        ELSE Finished("VALIDATION_ERROR")
     /\ UNCHANGED <<inp, way, tgt, contrib, queue, cur, P, log, cache>>
 
